@@ -23,9 +23,13 @@
 (* must accept what the 3-byte length field can express: re-chunkings use  *)
 (* pieces of up to 2 * CHUNK (shipped documents contain such chunks).      *)
 (* Bug "DecLen2Bytes": the reader takes two of the three length bytes.     *)
+(* A re-chunking may also contain an EMPTY chunk (two cut points that      *)
+(* coincide: length field 0, no data) anywhere; it contributes nothing.    *)
+(* Bug "EmptyChunkEndsStream": the reader takes it for the end.            *)
 (***************************************************************************)
 EXTENDS Integers, Sequences, FiniteSets, TLC
-CONSTANTS CHUNK, MaxSegs, MaxMsgs, MaxLen, Bug
+CONSTANTS CHUNK, MaxSegs, MaxMsgs, MaxLen, Bug,
+          Empties     \* TRUE: the re-chunkings also include the cuts with one empty chunk put in
 VARIABLES stream,   \* Seq([h, decl, msgs])   msgs = sequence of message lengths, decl = declared lengths (may be stale)
           cuts      \* a composition of the stream's byte length into chunk sizes (for the re-chunking property)
 vars == <<stream, cuts>>
@@ -54,7 +58,11 @@ EncodeChunks(st) == LET b == StreamBytes(st, Repaired(st))
 \* ---- decoder: concatenate the chunk data, then walk the segments using the header lengths
 \* the reader cuts the file by the length fields it reads; a wrong length makes it lose the framing of everything that follows
 DecLen(c) == IF Bug = "DecLen2Bytes" THEN c.lenField % CHUNK ELSE c.lenField
-Concat(chunks) == IF \E k \in 1..Len(chunks) : DecLen(chunks[k]) # Len(chunks[k].data) THEN <<<<"X">>>>
+Considered(chunks) == IF Bug = "EmptyChunkEndsStream" /\ \E k \in 1..Len(chunks) : chunks[k].lenField = 0
+                        THEN SubSeq(chunks, 1, (CHOOSE k \in 1..Len(chunks) : chunks[k].lenField = 0 /\ \A j \in 1..(k - 1) : chunks[j].lenField # 0) - 1)
+                      ELSE chunks
+Concat(chunks0) == LET chunks == Considered(chunks0) IN
+                  IF \E k \in 1..Len(chunks) : DecLen(chunks[k]) # Len(chunks[k].data) THEN <<<<"X">>>>
                   ELSE Flat([k \in 1..Len(chunks) |-> chunks[k].data])
 RECURSIVE TakeMsgs(_, _, _)
 TakeMsgs(b, p, decl) == \* lengths actually taken for the declared lengths, starting at position p (1-based)
@@ -77,12 +85,15 @@ CutBy(b, cs) == IF cs = <<>> THEN <<>> ELSE <<[marker |-> 0, lenField |-> Head(c
 RECURSIVE Compositions(_)
 Compositions(n) == IF n = 0 THEN {<<>>} ELSE UNION {{<<k>> \o c : c \in Compositions(n - k)} : k \in 1..(IF n < 2 * CHUNK THEN n ELSE 2 * CHUNK)}
 
+\* ... and the same cuts with one empty chunk put in anywhere
+WithEmpty(cs) == cs \cup UNION {{SubSeq(c, 1, k) \o <<0>> \o SubSeq(c, k + 1, Len(c)) : k \in 0..Len(c)} : c \in cs}
 Segs == [h : 1..2, msgs : UNION {[1..k -> 0..MaxLen] : k \in 0..MaxMsgs}]
 WithDecl(seg) == {[h |-> seg.h, msgs |-> seg.msgs, decl |-> d] : d \in {seg.msgs} \cup {[j \in 1..Len(seg.msgs) |-> (seg.msgs[j] + 1) % (MaxLen + 1)]}}
 Init == /\ stream \in UNION {[1..n -> UNION {WithDecl(sg) : sg \in Segs}] : n \in 0..MaxSegs}
         /\ cuts = <<>>
 Rechunk == /\ cuts = <<>> /\ Len(StreamBytes(stream, TRUE)) > 0
-           /\ cuts' \in Compositions(Len(StreamBytes(stream, TRUE))) /\ UNCHANGED stream
+           /\ cuts' \in (IF Empties THEN WithEmpty(Compositions(Len(StreamBytes(stream, TRUE)))) ELSE Compositions(Len(StreamBytes(stream, TRUE))))
+           /\ UNCHANGED stream
 Next == Rechunk
 Spec == Init /\ [][Next]_vars
 
